@@ -44,6 +44,26 @@ def judge(a, b):
     probes = I.critical_probes(bounds)
     return (None if any(v.is_local() for v in bounds) else oracle_pair(c, probes)) or oracle_single(c.ca, probes)
 
+def post_pin_pairs(R, n):
+    """a pin on a post-release (or local build) of a version next to a range whose exclusive lower bound is that version, alone and
+    as the first member of a union whose later member overlaps the other operand: the walks over the two member lists have to step
+    past the pin without losing the later member, and the answer for the pin alone must be the one the intersection gives"""
+    import gen_constraints as GC
+    from poetry.core.constraints.version import Version
+    rng = R.rng; out = []
+    for _ in range(n):
+        pool = sorted({x for x in (Version.parse(t) for t in GC.gen_pool(rng, locals_=False, epochs=False)) if not x.is_postrelease() and not x.is_local() and not x.is_devrelease()})
+        if len(pool) < 3: continue
+        v, w, x = sorted(rng.sample(pool, 3))
+        pin = rng.choice([f"=={v.text}.post1", f"=={v.text}.post2", f"=={v.text}+local.1"])
+        a = rng.choice([pin, f"{pin} || >={w.text}", f"{pin} || >={w.text},<{x.text}", f"{pin} || >{w.text}", f"<{v.text} || {pin} || >={x.text}"])
+        b = rng.choice([f">{v.text}", f">{v.text},<{x.text}", f"!={v.text}", f">{v.text},<={w.text}", f">{v.text} || <{v.text}"])
+        if rng.random() < 0.5: a, b = b, a
+        ca, ga = I.parse_with_groups(a); cb, gb = I.parse_with_groups(b)
+        c = VC.Case(); c.a, c.b, c.ca, c.cb, c.ga, c.gb, c.pool = a, b, ca, cb, ga, gb, []
+        out.append(c)
+    return out
+
 def run(tier):
     R = common.Run("C12", tier)
     ok, log = common.build_driver()
@@ -53,7 +73,8 @@ def run(tier):
         R.proof = dict(ok=False, theorems=[], log=log[-3000:])
         return R.finish(VC.TRUSTED, VC.ASSUME, RULE, "make -C coq Properties/C12.vo")
     M = common.Model()
-    cases = VC.gen_pairs(R, 4000 if tier == "quick" else 80000) + VC.edge_pairs(R, 300 if tier == "quick" else 6000)
+    cases = VC.gen_pairs(R, 4000 if tier == "quick" else 80000) + VC.edge_pairs(R, 300 if tier == "quick" else 6000) + \
+        post_pin_pairs(R, 200 if tier == "quick" else 4000)
     reqs, idx, mem_reqs, mem_idx = [], [], [], []
     for c in cases:
         if isinstance(c.ca, Exception) or isinstance(c.cb, Exception):
